@@ -266,7 +266,7 @@ def corr_run(ctx, name, vh_args, component_desc, nontrivial=lambda c: True, spec
     return {"cases": len(lines), "mismatches": mism, "specbad": specbad}
 
 
-def ref_run(ctx, name, vh_args, desc, nontrivial=lambda c: True, max_samples=3, report_max=3):
+def ref_run(ctx, name, vh_args, desc, nontrivial=lambda c: True, max_samples=3, report_max=3, oracle_prefix=None):
     """run a harness sub-command that compares the implementation with a reference (another implementation or an
     executable oracle) by itself and lists the differences per case in cases.json (`oracle_fail`)."""
     out = os.path.join(ctx.workdir, name)
@@ -294,9 +294,20 @@ def ref_run(ctx, name, vh_args, desc, nontrivial=lambda c: True, max_samples=3, 
             ctx.distinct.add(hashlib.sha1(key.encode()).hexdigest())
     for c in ran[:max_samples]:
         ctx.samples.append({"run": name, "case": {k: v for k, v in c.items() if k not in ("artela", "upstream")}})
-    bad = [c for c in ran if c.get("oracle_fail")]
-    for c in bad[:report_max]:
+    bad = []
+    for c in ran:
+        of = c.get("oracle_fail") or []
+        if oracle_prefix:
+            of = [o for o in of if o.startswith(oracle_prefix) or o.startswith("Go panic")]
+        if not of:
+            continue
         tags = c.get("known_tags") or []
+        if tags and all(ctx.is_known(t) for t in tags):
+            for t in tags:
+                ctx.known_finding(t, "(e.g. %s)" % json.dumps({k: v for k, v in c.items() if k not in ("artela", "upstream")})[:400])
+            continue
+        bad.append(c)
+    for c in bad[:report_max]:
         ctx.violation(name, {"kind": "the implementation differs from the reference / violates the property oracle on this input",
                              "run": name, "vh_args": vh_args, "index": c.get("idx"), "case": c})
     ctx.notes.append("%s: %d cases (%d skipped), %d with differences" % (name, len(ran), len(cases) - len(ran), len(bad)))
